@@ -26,11 +26,12 @@ PROP = dict(
     stub_notes=_stubs,
     harnesses=[
         H(NS, "c08", "c08_accept", "measurement pair => pending, fresh, origin equal, expected version, server mode, stratum 1..=16, pending cleared; unsolicited/stale/forged packets change nothing (48-byte packets)", timeout=600, bounds="octet 0 in {0x24,0x23,0x1C,0x2C}"),
-        H(NS, "c08", "c08_replay", "after a concrete accepted answer, any second 48-byte packet (verbatim replay, second answer to the same id) is not measured", timeout=600),
+        H(NS, "c08", "c08_replay", "in the state an acceptance leaves behind (no pending request) no 48-byte packet is measured or changes the source; with c08_accept (acceptance needs and clears the pending id, rejection keeps it) this gives at most one pair per request", timeout=600),
         H(NS, "c08", "c08_request", "the id the timer stores is the one in the request it sends, deadline = now + poll window (v4 family)", timeout=600),
         H(NS, "c08", "c08_accept_full", "as c08_accept, 40 octet-0 values", tier="thorough"),
         H(NS, "c08", "c08_accept_v5", "as c08_accept for the 76-byte NTPv5 template (client cookie)", tier="thorough"),
         H(NS, "c08", "c08_accept_v5_full", "as c08_accept_v5, 15 header combinations", tier="thorough"),
+        H(NS, "c08", "c08_replay_v5", "c08_replay for the NTPv5 template", tier="thorough"),
         H(NS, "c08", "c08_request_v5", "request id / deadline for NTPv5 requests", tier="thorough"),
     ],
 )
